@@ -259,14 +259,13 @@ class FleetStore(Store):
 
             # 5) Remove it from ready_items wherever it currently is
             try:
+                insert_idx = self.ready_items.index(item)
                 self.ready_items.remove(item)
             except ValueError:
                 raise RuntimeError(f"Item {item!r} not found in ready_items during cancel.")
 
             # 6) Compute new insertion index
-            # "FIFO":
-                # one slot before the remaining reserved block
-            insert_idx = len(self.ready_items) - len(self.reserved_events) - 1
+            # the released item goes back to the place it had in ready_items
             
 
             # 7) Re‑insert it
@@ -426,9 +425,8 @@ class FleetStore(Store):
             We pick the j-th from top (for LIFO) or bottom (for FIFO)
             but do NOT remove it yet—we just record the exact item.
             """
-            j = len(self.reserved_events)
-            #if self.mode == "FIFO":
-            item = self.ready_items[j]
+            # bind the first ready item that no other token holds
+            item = next(it for it in self.ready_items if not any(it is r for r in self.reserved_items))
             #else:  # LIFO
             #   item = self.ready_items[-1 - j]
 
